@@ -8,10 +8,15 @@ for i in ids:
     m = json.load(open(d + '/meta.json'))
     for chk in list(m.get('checks', {m['property']: 0})):
         t = time.time()
+        base = 'HEAD'
         p = subprocess.run(['/verif/tools/with_patch.sh', d + '/patch.diff', '/verif/check', chk], cwd='/verif',
                            stdout=subprocess.PIPE, stderr=subprocess.STDOUT, text=True)
+        if p.returncode == 2 and 'patch does not apply' in p.stdout:
+            base = m.get('repo_head', 'HEAD')       # written against an older commit of /repo
+            p = subprocess.run(['/verif/tools/with_patch.sh', d + '/patch.diff', '/verif/check', chk], cwd='/verif',
+                               env=dict(os.environ, PATCH_BASE=base), stdout=subprocess.PIPE, stderr=subprocess.STDOUT, text=True)
         viol = [l for l in p.stdout.splitlines() if l.startswith('VIOLATION') or l.startswith('  what:')]
         m.setdefault('recheck', {})[chk] = dict(rc=p.returncode, detected=p.returncode == 1, wall_s=round(time.time() - t, 1),
-                                               first=[v[:300] for v in viol[:2]], at=time.strftime('%H:%M'))
+                                               first=[v[:300] for v in viol[:2]], at=time.strftime('%H:%M'), base=base)
         print(i, chk, 'DETECTED' if p.returncode == 1 else 'rc=%d' % p.returncode, flush=True)
     json.dump(m, open(d + '/meta.json', 'w'), indent=1)
